@@ -5,6 +5,7 @@ package main
 // Lean model fed the same blocks, canonical dumps compared after every block.
 
 import (
+	"crypto/sha256"
 	"sort"
 	"database/sql"
 	"fmt"
@@ -61,6 +62,7 @@ type World struct {
 	Rep  *Report
 	// bank scenario: randomBatch leaves transfers out of batches that hold a PEG request
 	NoTransferNextToRequest bool
+	crowded                 bool // the PEG crowd (more than 100 holders, tied) has been created
 }
 
 func (w *World) roDB() *sql.DB {
@@ -109,7 +111,9 @@ func (w *World) LastShortHashes(h uint32) []string {
 
 // TopPEG returns up to n addresses holding PEG, richest first.
 func (w *World) TopPEG(n int) [][]byte {
-	rows, err := w.roDB().Query("SELECT address FROM pn_addresses WHERE peg_balance > 0 ORDER BY peg_balance DESC LIMIT ?", n)
+	// (the statement of IsIncludedTopPEGAddress, text and columns: ties at the cut are broken by the
+	// same plan)
+	rows, err := w.roDB().Query("SELECT address, peg_balance FROM pn_addresses WHERE peg_balance > 0 ORDER BY peg_balance DESC LIMIT ?;", n)
 	if err != nil {
 		return nil
 	}
@@ -117,10 +121,40 @@ func (w *World) TopPEG(n int) [][]byte {
 	var out [][]byte
 	for rows.Next() {
 		var a []byte
-		rows.Scan(&a)
+		var bal uint64
+		rows.Scan(&a, &bal)
 		out = append(out, a)
 	}
 	return out
+}
+
+// TiedOutsider returns an address that holds exactly as much PEG as the last of the top-100 list
+// without being on it (nil unless more than 100 addresses hold PEG and the cut falls inside a tie).
+func (w *World) TiedOutsider(top [][]byte) []byte {
+	if len(top) < 100 {
+		return nil
+	}
+	var cut uint64
+	if err := w.roDB().QueryRow("SELECT peg_balance FROM pn_addresses WHERE address = ?", top[len(top)-1]).Scan(&cut); err != nil || cut == 0 {
+		return nil
+	}
+	rows, err := w.roDB().Query("SELECT address FROM pn_addresses WHERE peg_balance = ? ORDER BY id", cut)
+	if err != nil {
+		return nil
+	}
+	defer rows.Close()
+	in := map[string]bool{}
+	for _, t := range top {
+		in[string(t)] = true
+	}
+	for rows.Next() {
+		var a []byte
+		rows.Scan(&a)
+		if !in[string(a)] {
+			return a
+		}
+	}
+	return nil
 }
 
 // ZeroPEG returns up to n addresses that have a ledger row but hold no PEG.
@@ -358,6 +392,30 @@ func (w *World) BuildBlock(h uint32) *BlockSpec {
 		b.OPR = w.G.OPRSet(h, ver, prev, n+extra, w.G.Rates, nil)
 		w.Rep.Count("opr:valid")
 	}
+	// once, early in the 2.0 era: a PEG holder pays 130 fresh addresses the same small amount — from
+	// then on more than 100 addresses hold PEG and the cut of the top-100 list falls inside a tie
+	if h >= a.V20+2 && !w.crowded {
+		for _, u := range w.G.Users {
+			if u.IsE && h <= a.RCDE {
+				continue
+			}
+			if bal := w.Balance(u.FA(), fat2.PTickerPEG); bal > 1e7 {
+				// (an entry holds at most 10 KiB: two entries of 65 outputs)
+				for part := 0; part < 2; part++ {
+					var outs []fat2.AddressAmountTuple
+					for i := 0; i < 65; i++ {
+						var fa factom.FAAddress
+						copy(fa[:], shaBytes(fmt.Sprintf("crowd-%d-%d-%d", w.G.Seed, part, i)))
+						outs = append(outs, fat2.AddressAmountTuple{Address: fa, Amount: 1000})
+					}
+					b.TX = append(b.TX, w.G.Batch(h, u, []fat2.Transaction{Transfer(u.FA(), fat2.PTickerPEG, outs...)}))
+				}
+				w.crowded = true
+				w.Rep.Count("spr:crowd-created")
+				break
+			}
+		}
+	}
 	if h >= a.V20 || r.Intn(10) == 0 {
 		sv := SPRVersionAt(a, h)
 		top := w.TopPEG(100)
@@ -394,6 +452,21 @@ func (w *World) BuildBlock(h uint32) *BlockSpec {
 					ids = append(ids, stranger)
 					signers = append(signers, w.G.Users[0].Fs)
 					payout = append(payout, w.G.Miners[0])
+				}
+			}
+			// a staker that holds exactly as much PEG as the 100th of the list but is not on it (the
+			// rule is membership of the list, not a balance threshold): in place of the 25th record,
+			// or as an extra one
+			if kindS == 8 || kindS == 9 || kindS == 10 {
+				if out := w.TiedOutsider(top); out != nil {
+					if kindS == 8 {
+						ids[cnt-1] = out
+					} else {
+						ids = append(ids, out)
+						signers = append(signers, w.G.Users[0].Fs)
+						payout = append(payout, w.G.Miners[0])
+					}
+					w.Rep.Count("spr:tied-outsider")
 				}
 			}
 			rates := map[string]uint64{}
@@ -647,3 +720,5 @@ func runGeneralChain(rep *Report, seed int64, variant int, length uint32) {
 }
 
 func init() { scenarios["general"] = scenGeneral }
+
+func shaBytes(x string) []byte { h := sha256.Sum256([]byte(x)); return h[:] }
